@@ -149,3 +149,23 @@ package bpv7
 //@ ensures result == nil && cb.CRCType == 1 ==> beUint(cb.CRC, 2) == crcOverZeroed(1, r, old(rpos(r)), rpos(r)) @C03
 //@ ensures result == nil && cb.CRCType == 2 ==> beUint(cb.CRC, 4) == crcOverZeroed(2, r, old(rpos(r)), rpos(r)) @C03
 //@ ensures result == nil ==> tokHead(r, old(rpos(r)) + 1, 0, cb.Value.BlockTypeCode()) && tokHead(r, old(rpos(r)) + 2, 0, cb.BlockNumber) && tokHead(r, old(rpos(r)) + 3, 0, uint64(cb.BlockControlFlags)) && tokHead(r, old(rpos(r)) + 4, 0, uint64(cb.CRCType)) @C01
+
+// ---- bundle (BPv7 4.2): indefinite-length array: 0x9f, primary block, canonical blocks in order, 0xff ----
+
+// Token offset of the i-th canonical block behind the primary block: 6 tokens per block, 8 with a CRC (defined by
+// its recurrence; an uninterpreted function constrained by the two requires clauses below).
+// govc:spec cbOff(cbs []CanonicalBlock, i int) uint64 = uf("cbOff", uint64, ref(cbs), i)
+
+// govc:func (*Bundle).MarshalCbor property C01
+//@ requires w != nil && blocksNonNil(*b)
+//@ requires cbOff(b.CanonicalBlocks, 0) == 0
+//@ requires forall i int :: 0 <= i && i < len(b.CanonicalBlocks) ==> cbOff(b.CanonicalBlocks, i + 1) == cbOff(b.CanonicalBlocks, i) + (b.CanonicalBlocks[i].CRCType != 0 ? 8 : 6)
+//@ let p := wpos(w)
+//@ let pe := pbCrcPos(p + 1, b.PrimaryBlock) + (b.PrimaryBlock.CRCType != 0 ? 2 : 0)
+//@ ensures result == nil ==> tokRaw(w, p, 0x9f) && encPrimaryHead(w, p + 1, b.PrimaryBlock) && encPrimaryFrag(w, p + 1, b.PrimaryBlock) @thorough
+//@ ensures result == nil ==> forall k int :: 0 <= k && k < len(b.CanonicalBlocks) ==> encCanonicalHead(w, pe + cbOff(b.CanonicalBlocks, k), b.CanonicalBlocks[k]) @thorough
+//@ ensures result == nil ==> tokRaw(w, pe + cbOff(b.CanonicalBlocks, len(b.CanonicalBlocks)), 0xff) && wpos(w) == pe + cbOff(b.CanonicalBlocks, len(b.CanonicalBlocks)) + 1
+//@ loop 0 invariant 0 <= i && i <= len(b.CanonicalBlocks) && wpos(w) == pe + cbOff(b.CanonicalBlocks, i) && blocksNonNil(*b)
+//@ loop 0 invariant tokRaw(w, p, 0x9f) && encPrimaryHead(w, p + 1, b.PrimaryBlock) && encPrimaryFrag(w, p + 1, b.PrimaryBlock) @thorough
+//@ loop 0 invariant forall k int :: 0 <= k && k < i ==> encCanonicalHead(w, pe + cbOff(b.CanonicalBlocks, k), b.CanonicalBlocks[k]) @thorough
+//@ loop 0 invariant forall k int :: 0 <= k && k < len(b.CanonicalBlocks) ==> b.CanonicalBlocks[k].CRCType == old(b.CanonicalBlocks[k].CRCType)
